@@ -60,7 +60,8 @@ PROPS["C18"] = {
                   T("TestC18Rate", {"checks": 5000}, {"checks": 100000, "shards": 4}),
                   T("TestC18Flags", {"checks": 5000}, {"checks": 100000, "shards": 4}),
                   T("TestC18Payload", {"checks": 4000}, {"checks": 80000, "shards": 4}),
-                  T("TestC18Exclude", {"checks": 2500}, {"checks": 50000, "shards": 8})],
+                  T("TestC18Exclude", {"checks": 2500}, {"checks": 50000, "shards": 8}),
+                  T("TestC18Commands", {"checks": 300, "shards": 4}, {"checks": 4000, "shards": 16})],
     }, {
         "pkg": "command", "fuzz": True, "thorough_only": True,
         "tests": [F("FuzzC18Ports", "60s"), F("FuzzC18Rate", "60s"), F("FuzzC18Flags", "45s"), F("FuzzC18Exclude", "60s")],
